@@ -35,7 +35,7 @@ class FPBool:
             return True
         if z3.is_false(self.z):
             return False
-        return core.ENG.decide(self.z, None)
+        return core.ENG.decide(self.z)
 
 
 class Dy:
